@@ -167,8 +167,9 @@ type PathEnum struct {
 
 	Paths     []*Path
 	Truncated bool
+	depth     int
 	callOrd   map[ssa.Value]string
-	atomBlock map[string]*ssa.BasicBlock
+	atomBlock map[string]map[*ssa.BasicBlock]bool
 }
 
 type peState struct {
@@ -204,7 +205,7 @@ func (pe *PathEnum) Run() *PathEnum {
 		pe.Budget = 200000
 	}
 	pe.callOrd = map[ssa.Value]string{}
-	pe.atomBlock = map[string]*ssa.BasicBlock{}
+	pe.atomBlock = map[string]map[*ssa.BasicBlock]bool{}
 	// stable ordinals for call-like values per callee name
 	count := map[string]int{}
 	for _, b := range pe.Fn.Blocks {
@@ -241,9 +242,11 @@ func (pe *PathEnum) walk(b *ssa.BasicBlock, from *ssa.BasicBlock, st *peState) {
 		st.pred[b] = from
 	}
 	// results produced in this block are new values on re-entry
-	for a, blk := range pe.atomBlock {
-		if blk == b {
-			delete(st.asg, a)
+	if st.visits[b.Index] > 1 {
+		for a, blks := range pe.atomBlock {
+			if blks[b] {
+				delete(st.asg, a)
+			}
 		}
 	}
 	for _, in := range b.Instrs {
@@ -291,14 +294,14 @@ func (pe *PathEnum) resolve(v ssa.Value, st *peState) ssa.Value {
 	for i := 0; i < 20 && st != nil; i++ {
 		switch x := v.(type) {
 		case *ssa.Phi:
-			if e := pe.phiEdge(x, st); e != nil {
+			if e := pe.phiEdge(x, st); e != nil && e != ssa.Value(x) {
 				v = e
 				continue
 			}
 		case *ssa.UnOp:
 			if x.Op == token.MUL {
 				if a, ok := x.X.(*ssa.Alloc); ok {
-					if m, ok := st.mem[a]; ok {
+					if m, ok := st.mem[a]; ok && m != v {
 						v = m
 						continue
 					}
@@ -391,8 +394,11 @@ func (pe *PathEnum) cond(v ssa.Value, st *peState) *BX {
 			return bxNot(pe.cond(x.X, st))
 		}
 	case *ssa.Phi:
-		if e := pe.phiEdge(x, st); e != nil {
-			return pe.cond(e, st)
+		if e := pe.phiEdge(x, st); e != nil && e != ssa.Value(x) && pe.depth < 30 {
+			pe.depth++
+			f := pe.cond(e, st)
+			pe.depth--
+			return f
 		}
 	case *ssa.BinOp:
 		switch x.Op {
@@ -439,17 +445,22 @@ func (pe *PathEnum) cond(v ssa.Value, st *peState) *BX {
 }
 
 func (pe *PathEnum) atom(name string, def ssa.Value) *BX {
-	if in, ok := def.(ssa.Instruction); ok {
-		switch d := def.(type) {
-		case *ssa.Call:
-			pe.atomBlock[name] = d.Block()
-		case *ssa.Extract:
-			if ti, ok := d.Tuple.(ssa.Instruction); ok {
-				pe.atomBlock[name] = ti.Block()
-			}
-		default:
-			_ = in
+	var blk *ssa.BasicBlock
+	switch d := def.(type) {
+	case *ssa.Extract:
+		if ti, ok := d.Tuple.(ssa.Instruction); ok {
+			blk = ti.Block()
 		}
+	default:
+		if in, ok := def.(ssa.Instruction); ok {
+			blk = in.Block()
+		}
+	}
+	if blk != nil {
+		if pe.atomBlock[name] == nil {
+			pe.atomBlock[name] = map[*ssa.BasicBlock]bool{}
+		}
+		pe.atomBlock[name][blk] = true
 	}
 	return bxAtom(name)
 }
@@ -519,6 +530,9 @@ func shortCallee(c *ssa.CallCommon) string {
 		if f.Pkg != nil {
 			return f.Pkg.Pkg.Name() + "." + f.Name()
 		}
+		if o := f.Origin(); o != nil && o.Pkg != nil {
+			return o.Pkg.Pkg.Name() + "." + o.Name()
+		}
 		return f.Name()
 	case *ssa.Builtin:
 		return f.Name()
@@ -568,8 +582,11 @@ func (pe *PathEnum) key(v ssa.Value, st *peState) string {
 		return "res:" + pe.callOrd[x]
 	case *ssa.Phi:
 		if st != nil {
-			if e := pe.phiEdge(x, st); e != nil {
-				return pe.key(e, st)
+			if e := pe.phiEdge(x, st); e != nil && e != ssa.Value(x) && pe.depth < 30 {
+				pe.depth++
+				k := pe.key(e, st)
+				pe.depth--
+				return k
 			}
 		}
 		return "phi:" + x.Comment
@@ -623,10 +640,16 @@ func (pe *PathEnum) classify(v ssa.Value, st *peState) string {
 		if x.Value == nil {
 			return "nil"
 		}
+		if x.Value.Kind() == constant.Bool {
+			return fmt.Sprint(constant.BoolVal(x.Value))
+		}
 		return "const:" + x.Value.ExactString()
 	case *ssa.Phi:
-		if e := pe.phiEdge(x, st); e != nil {
-			return pe.classify(e, st)
+		if e := pe.phiEdge(x, st); e != nil && e != ssa.Value(x) && pe.depth < 30 {
+			pe.depth++
+			k := pe.classify(e, st)
+			pe.depth--
+			return k
 		}
 		return "phi"
 	case *ssa.MakeInterface:
